@@ -43,6 +43,22 @@ def pair(ck):
             n += 1
             ck.oblige('C18.pair.instantiate.valid', p, fee_triple_bad(prog, fld(prog, p.world.storage['config'], 'pool_fees')), 'stored pool fees: each < 100% and sum < 100%')
     ck.require(n >= 1, 'pair instantiate: no Ok path')
+    # a two-asset STABLESWAP pair: the amplification it is created with (it can never be changed afterwards) lies within [1, 10^6]
+    def inst_ss(it):
+        c = it.ctx; it.world.contract = LPO.PAIR
+        pf = it.mk(PN + 'pair::PoolFee', protocol_fee=LPO.fee(it, c.sym('fp', 128)), swap_fee=LPO.fee(it, c.sym('fs', 128)), burn_fee=LPO.fee(it, c.sym('fb', 128)))
+        msg = it.mk(PN + 'pair::InstantiateMsg', asset_infos=Agg('array', [LPO.info(it, 'native', 0), LPO.info(it, 'native', 1)]), token_code_id=5, asset_decimals=Agg('array', [6, 6]),
+                    pool_fees=pf, fee_collector_addr=Str('collector'), pair_type=it.mkv(PN + 'asset::PairType', 'StableSwap', amp=c.sym('amp', 64)), token_factory_lp=False)
+        return enter(it, 'terraswap_pair', 'instantiate', mk_env(it, 10**18), mk_info('factory', []), msg)
+    n = 0
+    for p in ck.explore(prog, inst_ss, 'pair.instantiate.stableswap'):
+        if p.ok:
+            n += 1
+            pt = fld(prog, p.world.storage['pair_info'], 'pair_type')
+            amp = pt.fields[0] if getattr(pt, 'variant', None) == 'StableSwap' else None
+            ck.oblige('C18.pair.instantiate.amp', p, True if amp is None else z3.Or(zint(amp) < 1, zint(amp) > 10**6, zint(amp) != z3.Int('amp')),
+                      'a stableswap pair is only created with an amplification within [1, 10^6] (stored as sent)')
+    ck.require(n >= 1, 'stableswap pair instantiate: no Ok path')
     def upd(it):
         c = it.ctx; LPO.setup_pair(it, ('native', 'cw20'))
         LPO.common_inv(c, dict(f=[0, 0], b=[0, 0], at=[0, 0], ab=[0, 0], fees=[z3.Int('fee_protocol'), z3.Int('fee_swap'), z3.Int('fee_burn')])) if False else None
@@ -182,6 +198,27 @@ def distributor(ck):
             ck.oblige('C18.distributor.grace_monotone', p, g < st['grace'], 'the grace period never decreases')
         elif p.err: reject_no_write(ck, 'C18.distributor.UpdateConfig.reject_no_write', p)
     ck.require(n >= 1, 'distributor update: no Ok path')
+    # partial updates: the grace period and the epoch configuration each independently present or absent (everything else absent):
+    # a bound must not depend on ANOTHER field being part of the same message
+    def upd_partial(it):
+        c = it.ctx
+        st = LD.setup_dist(it, 1, 1)
+        c.assume(st['dur'] >= DAY)
+        o = opts(it, [('grace_period', lambda: U64(c.sym('new_grace', 64))),
+                      ('epoch_config', lambda: it.mk(EM + 'EpochConfig', duration=U64(c.sym('new_duration', 64)), genesis_epoch=U64(c.sym('new_genesis', 64))))])
+        msg = it.mkv(LD.FX, 'UpdateConfig', owner=NONE(), bonding_contract_addr=NONE(), fee_collector_addr=NONE(), distribution_asset=NONE(), **o)
+        it.extra = dict(st=st)
+        return enter(it, 'fee_distributor', 'execute', mk_env(it, 10**18), mk_info('owner', []), msg)
+    n = 0
+    for p in ck.explore(prog, upd_partial, 'distributor.update_config.partial'):
+        if p.ok:
+            n += 1
+            cfg = p.world.storage['config']; st = p.extra['st']
+            g = fld(prog, cfg, 'grace_period').fields[0]; d = fld(prog, fld(prog, cfg, 'epoch_config'), 'duration').fields[0]
+            ck.oblige('C18.distributor.UpdateConfig.partial.valid', p, z3.Or(g < 1, g > 30, d < DAY), 'bounds hold after any accepted partial update (grace period and epoch configuration independently present or absent)')
+            ck.oblige('C18.distributor.UpdateConfig.partial.grace_monotone', p, g < st['grace'], 'the grace period never decreases')
+        elif p.err: reject_no_write(ck, 'C18.distributor.UpdateConfig.partial.reject_no_write', p)
+    ck.require(n >= 1, 'distributor partial update: no Ok path')
 
 
 def lair(ck):
@@ -249,4 +286,4 @@ def main():
 
 
 if __name__ == '__main__':
-    sys.exit(main())
+    sys.exit(run_main(main))
